@@ -23,7 +23,7 @@ META = {
     "trusted_base": ["ciborium into_writer is deterministic and canonical for Text/Bytes/Array", "RFC 8152 section 6.3 as transcribed in spec/rfc8152.py",
                      "C02 (cbor_bstr yields the stored bytes) and C11 R-3"],
 }
-META["decides"] += ' (As built: see C03 - decided per public entry point on the all-inlined view.)'
+META["decides"] += ' (As built: R-2 re-checks the header encoder table, which is what a built protected header contributes; see C03 - decided per public entry point on the all-inlined view.)'
 
 
 def check(ctx):
@@ -32,6 +32,10 @@ def check(ctx):
     S.check_routing_inlined(ctx, "R-3", SFN)
     check_is_empty(ctx, "R-2")
     check_cbor_bstr(ctx, "R-2")
+    # "... otherwise the encoded map": the header map that a built protected header contributes is what the header encoder
+    # emits - its table is re-checked here (the recogniser of C11 R-1/R-2/R-5/R-6 under this property's name)
+    from rules.c11 import check_map_encoder, HEADER_EMIT, HEADER_EXTRAS
+    check_map_encoder(ctx, "header::Header", HEADER_EMIT, HEADER_EXTRAS, rules=("R-2", "R-2", "R-2", "R-2"))
     S.check_carriers(ctx, "R-5", ["mac::CoseMac", "mac::CoseMac0"])
     n = 0
     for key, h in sorted(HELPERS.items()):
